@@ -98,7 +98,8 @@ Value& OpMODExpression::value(Context& ctx) const
         Integer l = *a2.integer();
         if (l == 0)
           throw RuntimeError(EXC_RT_DIVIDE_BY_ZERO);
-        Value val(Integer(*a1.integer() % l));
+        /* x % -1 is 0 for every x (INT64_MIN % -1 traps on the hardware) */
+        Value val(Integer(l == -1 ? 0 : *a1.integer() % l));
         return LVAL2(val, a1, a2);
       }
       default:
